@@ -461,6 +461,25 @@ def _get_timepoint_simulated_effects(
     return sim_eff
 
 
+def _duration_conditions(action: DurativeAction, duration: Fraction) -> List[FNode]:
+    """
+    Returns the constraints that the given duration must satisfy with respect to
+    the non-constant bounds of the action's duration interval. Those bounds are
+    evaluated in the state in which the action starts, so they are conditions of
+    the start event of the action.
+    """
+    em = action.environment.expression_manager
+    interval = action.duration
+    conditions: List[FNode] = []
+    if not interval.lower.is_constant():
+        lower_op = em.LT if interval.is_left_open() else em.LE
+        conditions.append(lower_op(interval.lower, duration))
+    if not interval.upper.is_constant():
+        upper_op = em.LT if interval.is_right_open() else em.LE
+        conditions.append(upper_op(duration, interval.upper))
+    return conditions
+
+
 def _extract_action_timings(
     action: DurativeAction,
     start: Fraction,
@@ -472,8 +491,11 @@ def _extract_action_timings(
     - a condition start/ends
     - an effect takes place
     - a simulated effects takes place
+    - the duration bounds are evaluated (the start, if they are not constant)
     """
     timings: Set[Fraction] = set()
+    if _duration_conditions(action, duration):
+        timings.add(start)
 
     absolute_time = lambda timing: _absolute_time(timing, start, duration)
     timings.update(map(absolute_time, chain(action.effects, action.simulated_effects)))
@@ -507,6 +529,9 @@ def _extract_instantenous_actions(
         )
         for cond in _get_timepoint_conditions(action, timing, start, duration):
             inst_action.add_precondition(cond)
+        if timing == start:
+            for cond in _duration_conditions(action, duration):
+                inst_action.add_precondition(cond)
         for eff in _get_timepoint_effects(action, timing, start, duration):
             inst_action._add_effect_instance(eff)
         sim_eff = _get_timepoint_simulated_effects(action, timing, start, duration)
